@@ -3,6 +3,7 @@ package loadbalancer
 import (
 	"bufio"
 	"context"
+	"errors"
 	"fmt"
 	"net"
 	"net/http"
@@ -19,6 +20,11 @@ import (
 	"github.com/0xReLogic/Helios/internal/ratelimiter"
 	"github.com/0xReLogic/Helios/internal/utils"
 )
+
+// errBackendFailed tells the circuit breaker that a proxied request failed
+// (5xx answer or unreachable backend). The response has already been written
+// and accounted for when it is returned.
+var errBackendFailed = errors.New("proxied request failed")
 
 // Strategy defines the interface for load balancing strategies
 type Strategy interface {
@@ -615,6 +621,10 @@ func (lb *LoadBalancer) ServeHTTP(w http.ResponseWriter, r *http.Request) {
 		err := lb.circuitBreaker.Execute(func() error {
 			return lb.handleRequest(w, r, startTime)
 		})
+		if errors.Is(err, errBackendFailed) {
+			// counted as a failure by the breaker; the client already has its response
+			return
+		}
 		if err != nil {
 			failureCount, successCount, requestCount := lb.circuitBreaker.Counts()
 			logger.Error().
@@ -637,7 +647,7 @@ func (lb *LoadBalancer) ServeHTTP(w http.ResponseWriter, r *http.Request) {
 		}
 	} else {
 		// Execute without circuit breaker
-		if err := lb.handleRequest(w, r, startTime); err != nil {
+		if err := lb.handleRequest(w, r, startTime); err != nil && !errors.Is(err, errBackendFailed) {
 			logger.Error().Err(err).Msg("request handling failed")
 		}
 	}
@@ -693,6 +703,11 @@ func (lb *LoadBalancer) proxyRequest(backend *Backend, w http.ResponseWriter, r 
 	// Record metrics and handle passive health checks
 	lb.recordRequestMetrics(backend, rw.statusCode, startTime, r)
 
+	// 5xx (including the 502 written when the backend is unreachable) is a
+	// failed request as far as the circuit breaker is concerned
+	if rw.statusCode >= http.StatusInternalServerError {
+		return errBackendFailed
+	}
 	return nil
 }
 
